@@ -32,3 +32,37 @@ Theorem C10_stability : forall (V : Type) (vscale : R -> V -> V) (Q : V -> V -> 
   forall v lam, 0 < Q v v -> A v = vscale lam v -> Rabs lam <= 1.
 Proof. intros V vscale Q A Hs Hc H. exact (lyap_real_eig V vscale Q A Hs Hc 1 Rlt_0_1 H). Qed.
 Print Assumptions C10_stability.
+
+(* ---------- the alternation loop (Altern.v): for every solver oracle, stop-flag history and
+   max_iter, at every exit the returned pair satisfies what the solver certified ---------- *)
+From Coq Require Import List.
+From PK Require Import Altern AlternFacts.
+Import ListNotations.
+
+Theorem C10_loop_invariant : forall (XA XB O : Type) (solveA : nat -> XB -> resA XA O) (solveB : nat -> XA -> resB XB)
+  (stop : nat -> bool) (close : O -> O -> bool) (Inv : XA -> XB -> Prop),
+  (forall k p x obj, solveA k p = OptA x obj -> Inv x p) ->
+  (forall k x p, solveB k x = OptB p -> Inv x p) ->
+  forall max_iter x0 p0,
+  let r := fit solveA solveB stop close max_iter x0 p0 in
+  (o_x r = x0 /\ o_p r = p0 /\ o_log r = []) \/ Inv (o_x r) (o_p r).
+Proof. exact fit_invariant. Qed.
+Print Assumptions C10_loop_invariant.
+
+Theorem C10_log_nonincreasing : forall (XA XB O : Type) (solveA : nat -> XB -> resA XA O) (solveB : nat -> XA -> resB XB)
+  (stop : nat -> bool) (close : O -> O -> bool) (Inv : XA -> XB -> Prop),
+  (forall k x p, solveB k x = OptB p -> Inv x p) ->
+  forall (J : XA -> O) (le : O -> O -> Prop),
+  (forall k p x obj, solveA k p = OptA x obj -> obj = J x /\ forall y, Inv y p -> le (J x) (J y)) ->
+  forall max_iter x0 p0,
+  nonincreasing O le (o_log (fit solveA solveB stop close max_iter x0 p0)).
+Proof. exact fit_log_nonincreasing. Qed.
+Print Assumptions C10_log_nonincreasing.
+
+Theorem C10_n_iter : forall (XA XB O : Type) (solveA : nat -> XB -> resA XA O) (solveB : nat -> XA -> resB XB)
+  (stop : nat -> bool) (close : O -> O -> bool) max_iter x0 p0, (0 < max_iter)%nat ->
+  (1 <= o_niter (fit solveA solveB stop close max_iter x0 p0) <= max_iter)%nat /\
+  (o_reason (fit solveA solveB stop close max_iter x0 p0) = RMaxIter ->
+   o_niter (fit solveA solveB stop close max_iter x0 p0) = max_iter).
+Proof. exact fit_niter. Qed.
+Print Assumptions C10_n_iter.
